@@ -164,7 +164,7 @@ def install(rec):
         if method in ("svd", "svd:eig") or (method in ("eigh",) and not amb):
             lo_, hi_ = min(kk, k), max(kk, k)
             zero_band = kk != k and kk >= 1 and (not mb or kk <= mb) and bool(
-                np.all(sdec[lo_:hi_] <= max(margin, 1e3 * eps) * max(sdec[0], 1e-300)))
+                np.all(sdec[lo_:hi_] <= max(margin, 1e3 * eps, 3 * np.sqrt(eps)) * max(sdec[0], 1e-300)))
             if amb or zero_band:
                 amb = True
                 rec.check(entry, "kept_rank", None, sig=sig)
@@ -307,7 +307,8 @@ def install(rec):
                                and np.all(sv >= 0)),
                           mech=f"{entry}:values_descending:{method}", detail=detail, sig=sig)
         return {"k": k_eff, "truncating": truncating, "amb": amb, "sdec": sdec,
-                "zero": max(margin, 1e3 * eps) * max(sdec[0] if d else 0.0, 1e-300)}
+                # (squared values below eps vanish in the cumulative sums of the sum2 modes)
+                "zero": max(margin, 1e3 * eps, 3 * np.sqrt(eps)) * max(sdec[0] if d else 0.0, 1e-300)}
 
     # ---- array_split ----------------------------------------------------------
     def pre_as(x, method="auto", absorb="auto", max_bond=None, cutoff=1e-10,
